@@ -17,6 +17,7 @@ SPEC (a dict; everything the source does not say itself)
               {"start": text}                 the statement whose source starts with `text` (unique in the function)
               {"start": text, "end": text2}   the statements from that one to the one starting with `text2`, same block
               {"if_test": text}               the test expression of the `if` statement starting with `text`
+              {"within": text, …}             search only inside the compound statement starting with `text`
   outs      [(local name, type)]   locals of a fragment that are results (fields of the returned record)
   actions   {call statement text: lean term}, action_type: calls with effects outside the model become entries of
             the trace field `acts : List action_type`
@@ -42,6 +43,15 @@ KEYWORDS = {"prefix", "end", "at", "from", "then", "else", "open", "instance", "
             "postfix", "notation", "local", "private", "protected", "mutual", "partial", "unsafe", "return", "for",
             "by", "calc", "Type", "Prop", "Sort", "set_option", "attribute", "export", "extends", "using", "seal",
             "suffices", "obtain", "mut", "try", "catch", "finally", "break", "continue", "unless", "exists", "forall"}
+
+
+# identifiers the emitted Lean text uses: a Python local of that name would capture them
+EMITTED = {"some", "none", "true", "false", "decide", "not", "List", "Int", "Nat", "Bool", "Bytes", "TLX", "PyRt", "Option",
+           "Except", "Unit", "id", "min", "max", "acts"}
+
+
+def lname_ok(n):
+    return n not in EMITTED and not n.startswith("py_")
 
 
 class Untranslatable(Exception):
@@ -141,6 +151,7 @@ class Translator:
         self.raises = False
         self.joins = {}
         self.init_used = set()
+        self.synthetic = set()
 
     # ------------------------------------------------------------------------------------------- helpers
     def bad(self, node, reason):
@@ -573,8 +584,8 @@ class Translator:
             if v.typ in ("NoneType", "EmptyDict"):
                 self.bad(node, "a local of unknown type (assigned None or {})")
             n = lname(target.id)
-            if target.id in self.reserved:
-                self.bad(node, f"local `{target.id}` clashes with a Lean name of the spec")
+            if target.id in self.reserved or not (lname_ok(target.id) or target.id in self.synthetic):
+                self.bad(node, f"local `{target.id}` clashes with a Lean name of the spec or of the emitted text")
             env[target.id] = V(n, v.typ, v.nn)
             return env, f"let {n} : {ty(v.typ)} := {v.term}"
         k = self.key(target)
@@ -692,6 +703,7 @@ class Translator:
 
     def s_Match(self, st, rest, env, frame):
         subj = self.fresh("py_m")
+        self.synthetic.add(subj)
         name = ast.Name(id=subj, ctx=ast.Load())
         chain = None
         cases = list(st.cases)
@@ -738,6 +750,8 @@ class Translator:
         if not (is_int(lo.typ) and is_int(hi.typ)):
             self.bad(st, "range bounds that are not ints")
         i = lname(st.target.id)
+        if st.target.id in self.reserved or not lname_ok(st.target.id):
+            self.bad(st, f"loop variable `{st.target.id}` clashes with a Lean name of the spec or of the emitted text")
 
         def inner():
             if lo.typ == "Nat" and hi.typ == "Nat":
@@ -989,6 +1003,13 @@ def blocks_of(fn):
 
 
 def select(fn, sel, fname):
+    if "within" in sel:
+        # restrict the search to the body of the (unique) compound statement starting with this text
+        outer = list({id(s): s for b in blocks_of(fn) for s in b if starts(s, sel["within"])}.values())
+        if len(outer) != 1 or not hasattr(outer[0], "body"):
+            raise Untranslatable(fname, fn, f"fragment anchor within={sel['within']!r} matches {len(outer)} statements")
+        fn = outer[0]
+        sel = {k: v for k, v in sel.items() if k != "within"}
     if "if_test" in sel:
         hits = [s for b in blocks_of(fn) for s in b if isinstance(s, ast.If) and starts(s, sel["if_test"])]
         # an `elif` is the sole statement of an `orelse` block and is found once there
@@ -1047,6 +1068,8 @@ def _translate(tr, func, spec, assume_raises):
     env = {}
     binders = []
     for n, t in params:
+        if not lname_ok(n):
+            tr.bad(func, f"parameter `{n}` clashes with a name of the emitted text")
         env[n] = V(lname(n), t)
         binders.append((lname(n), t))
     place_binders = []
